@@ -237,6 +237,8 @@ def warn_rules(repo, res, rule="WARN"):
 
 
 def run(repo, res, tier):
+    from . import c11
+    c11.lookup_rule(repo, res)  # which names count as defined (PATH / DIRECTORY built in unless a PLAIN definition exists): decides the Undefined set
     book_rules(repo, res)
     warn_rules(repo, res)
     common.run_traversals(repo, res, only={"check::specialize_nonterminals", "check::resolve_nonterminals", "check::do_get_nonterm_refs"}, rp=False)
